@@ -40,7 +40,10 @@ SPEC = {
              "re-spaced variants; plus, per algorithm, secrets stored by every route and challenged with the same text plus lone "
              "surrogates (start, middle, end; high and low; str and bytes routes) which must fail with a ValueError, and the "
              "(stored, challenge) pairs a replace / surrogateescape / surrogatepass / ascii-ignore error handler would confuse. "
-             "Long deterministic histories are cut into pieces of <= 14 operations, each starting from a fresh configuration. "
+             "After every operation that stores a value (new / assign / load / save+load) the history challenges with material derived "
+             "from the stored value -- always the raw digest bytes, in rotation the salt, base64 / hex / printed salt:digest / repr / "
+             "{salt,digest} map forms, halves, reversals, a re-hash, as bytes and as text, and the value object itself -- all of "
+             "which must fail. Long deterministic histories are cut into pieces of <= 10 operations (+ the derived challenges), each starting from a fresh configuration. "
              "non-trivial = some operation produced a digest value; distinct = distinct (field, default, stream, history)"),
     "trusted_base": [KERNEL, "Print Assumptions: closed under the global context (no axioms)", TIE, HARNESS,
                      "modelled, not verified: hashlib as a function H with |H a x| = digest_size a (theorems) and as a per-case "
